@@ -494,6 +494,10 @@ pub fn gen_spec(rng: &mut Rng, prop: &str, tier: Tier) -> Spec {
         if n.bits() < 8 {
             continue;
         }
+        if matches!(algo, Algo::Rho | Algo::Squfof | Algo::Qs64) && n.bits() > 62 {
+            // documented precondition of these selectors (asserted in factor_impl)
+            continue;
+        }
         if matches!(algo, Algo::Siqs | Algo::Mpqs | Algo::Qs) {
             // keep forced sieves inside a sane range: what remains after trial division by the
             // primes < 200 must have at least 40 bits (tiny inputs make the sieves spin for ever
